@@ -62,6 +62,7 @@ class Sim:
         self.noise = noise
         self.max_steps = max_steps
         self.max_threads = 160
+        self.finishing = False
         self.repo_prefix = repo_prefix
         self.aborted = None
         self.switches = 0
@@ -141,6 +142,10 @@ class Sim:
 
     def _handoff(self, me, forced_other=False):
         """`me` gives up the baton (its state has been set by the caller)."""
+        if self.finishing and me is not self._main:
+            # the run is over: a thread unwinding through the repo's `finally:` blocks (child.stop(), lock hand-overs)
+            # must not park again - nobody would wake it
+            raise SimAbort("sim ended")
         nxt = self._pick_next(exclude=me if forced_other else None)
         if nxt is None:
             # deadlock: everybody blocked forever.  Wake the director with abort info.
@@ -272,11 +277,16 @@ class Sim:
 
         real = _real_threading.Thread(target=_boot, name=f"sim-{ts.tid}", daemon=True)
         ts.real = real
+        if self.finishing:
+            # spawned by a thread that is unwinding after the end of the run: it never gets to run
+            ts.abort = True
+            ts.sem.release()
         real.start()
         return ts
 
     def finish(self):
         """Director: end of run.  Release every parked thread with SimAbort."""
+        self.finishing = True
         for t in self.threads:
             if t is self._main:
                 continue
@@ -287,6 +297,11 @@ class Sim:
             if t is self._main or t.real is None:
                 continue
             t.real.join(timeout=5)
+        for t in list(self.threads):   # threads registered while the others were unwinding
+            if t is not self._main and t.real is not None and t.real.is_alive():
+                t.abort = True
+                t.sem.release()
+                t.real.join(timeout=5)
         alive = [t.name for t in self.threads if t is not self._main and t.real is not None and t.real.is_alive()]
         return alive
 
